@@ -164,6 +164,7 @@ unsafe fn serve(st: &mut KState, buf: *mut u8, len: usize) -> i64 {
     }
 }
 
+#[cfg(not(miri))]
 #[inline(always)]
 unsafe fn raw_syscall(num: i64, a1: usize, a2: usize, a3: usize, a4: usize, a5: usize, a6: usize) -> i64 {
     let ret: i64;
@@ -178,6 +179,7 @@ unsafe fn raw_syscall(num: i64, a1: usize, a2: usize, a3: usize, a4: usize, a5: 
 }
 
 /// Replacement for libc's `syscall(2)` wrapper, bound at link time for the whole process.
+#[cfg(not(miri))]
 #[no_mangle]
 pub unsafe extern "C" fn syscall(num: i64, a1: usize, a2: usize, a3: usize, a4: usize, a5: usize, a6: usize) -> i64 {
     if num == SYS_GETRANDOM {
